@@ -176,8 +176,7 @@ def summary(chk, crate, f):
                 base = base[1]
             if base[0] == "path":
                 flds = list(base[2]) + flds
-            from_si = flds[-1:] == [name] and any(x[0] == "var" and x[1] == "status_information" for x in walk(src)) or \
-                (flds[-1:] == [name] and "status_information" in show(src))
+            from_si = flds[-1:] == [name] and status_payload(f, src)
             clo_ok = False
             if clo[0] == "agg" and clo[1].startswith(FEIG):
                 cb = crate.bodies.get(clo[1])
@@ -205,7 +204,7 @@ def summary(chk, crate, f):
                             base = base[1]
                         if base[0] == "path":
                             flds = list(base[2]) + flds
-                        if flds[-3:] == [name, "@Some", "0"] and "status_information" in show(x):
+                        if flds[-3:] == [name, "@Some", "0"] and status_payload(f, x, 3):
                             payloads.append(x)
                 arith = any(x[0] == "bin" for x in walk(conv))
                 # every leaf of the conversion is the payload itself (or a constant): a value that arrives through
@@ -238,6 +237,47 @@ def summary(chk, crate, f):
         chk.require(good, "C08-b/summary-source", "status_information",
                     "the summary is not built from a StatusInformation reply of the reversal exchange: %s" % [show(v)[:100] for v in vals],
                     "last StatusInformation of the PartialReversal stream", f.sp(bb))
+
+
+def status_payload(f, x, drop=1):
+    """x = <v>.<field>[...]: v (x without its last `drop` fields) is, through `?`, `ok_or`, an accumulator
+    variable or the `Ok(..)` of an inlined helper, the payload of a StatusInformation reply of a stream."""
+    from discharge import unq
+    e = unq(f.ex.select_variant(unq(x)))
+    flds = []
+    base = e
+    while base[0] == "proj":
+        flds = list(base[2]) + flds
+        base = base[1]
+    if base[0] == "path":
+        flds = list(base[2]) + flds
+        base = ("path", base[1], ())
+    if len(flds) < drop:
+        return False
+    flds = flds[:len(flds) - drop]
+    e = ("proj", base, tuple(flds)) if flds else base
+    if e[0] == "proj" and e[1][0] == "path":
+        e = ("path", e[1][1], tuple(e[2]))
+    vals = expand_var(f, e)
+    if not vals:
+        return False
+    for v in vals:
+        v = unq(f.ex.select_variant(unq(v)))
+        if v != e and v[0] in ("proj", "path", "var") and v not in vals:
+            sub = expand_var(f, v)
+        else:
+            sub = [v]
+        for w in sub:
+            fl = []
+            b = w
+            while b[0] == "proj":
+                fl = list(b[2]) + fl
+                b = b[1]
+            if b[0] == "path":
+                fl = list(b[2]) + fl
+            if not ("@StatusInformation" in fl and any(y[0] == "call" and y[1].startswith(STREAM) for y in walk(w))):
+                return False
+    return True
 
 
 def closure_converts_arg(cb, field):
